@@ -7,6 +7,8 @@ package main
 // use: each is invisible to one caller at a time.)
 
 import (
+	"context"
+	"fmt"
 	"time"
 
 	"google.golang.org/protobuf/proto"
@@ -145,6 +147,59 @@ func purePrograms() []program {
 		p1 := &sctime.Period{StartTime: timestamppb.New(time.Unix(1, 0)), EndTime: timestamppb.New(time.Unix(5, 0))}
 		p2 := &sctime.Period{StartTime: timestamppb.New(time.Unix(3, 0))}
 		twice(func() { pkgtime.PeriodsIntersect(p1, p2); pkgtime.PeriodsConnected(p1, p2) })
+	})
+	// the same write, with one and with two options of its own, by two threads on two DIFFERENT resources: they have
+	// nothing in common, so whatever the two calls race on is something the package keeps between calls
+	opt1 := func() []resource.WriteOption {
+		return []resource.WriteOption{resource.WithUpdatePaths("default_string")}
+	}
+	opt2 := func() []resource.WriteOption {
+		return []resource.WriteOption{resource.WithUpdatePaths("default_string"), resource.InterceptBefore(func(o, n proto.Message) {})}
+	}
+	for oi, mkOpts := range []func() []resource.WriteOption{opt1, opt2} {
+		mkOpts := mkOpts
+		add(fmt.Sprintf("two resources/Value.Set||Value.Set with %d option(s) each", oi+1), func() {
+			par(func() {
+				v := resource.NewValue(resource.WithInitialValue(tm(12)))
+				r, _ := v.Set(tm(5), mkOpts()...)
+				touch(r)
+			},
+				func() {
+					v := resource.NewValue(resource.WithInitialValue(tm(12)))
+					r, _ := v.Set(tm(10), mkOpts()...)
+					touch(r)
+				})
+		})
+		add(fmt.Sprintf("two resources/Collection.Add;Update;Delete||the same with %d option(s) each", oi+1), func() {
+			run := func() {
+				c := resource.NewCollection()
+				r, _ := c.Add("a", tm(5), mkOpts()...)
+				touch(r)
+				r, _ = c.Update("a", tm(10), mkOpts()...)
+				touch(r)
+				r, _ = c.Delete("a", resource.WithAllowMissing(true), resource.WithExpectedCheck(func(proto.Message) error { return nil }))
+				touch(r)
+				for _, m := range c.List() {
+					touch(m)
+				}
+			}
+			par(run, run)
+		})
+	}
+	add("two resources/Pull seed + consume||the same", func() {
+		run := func() {
+			c := resource.NewCollection(resource.WithInitialRecord("a", tm(12)), resource.WithInitialRecord("b", tm(5)))
+			ctx, cancel := context.WithCancel(context.Background())
+			n := 0
+			for e := range c.Pull(ctx, resource.WithReadPaths(&T{}, "default_string")) {
+				touch(e.NewValue)
+				if n++; n == 2 {
+					cancel()
+				}
+			}
+			cancel()
+		}
+		par(run, run)
 	})
 	return ps
 }
